@@ -254,6 +254,12 @@ def parse_result(json_path, logfile, h):
         elif status == "Failure":
             ent = {"function": fn, "description": desc, "category": cat,
                    "file": c.get("location", {}).get("file"), "line": c.get("location", {}).get("line")}
+            if desc.startswith("NaN on "):
+                # CBMC --nan-check (a Kani default): producing NaN is not a panic in Rust and is not part of
+                # any property here; the harnesses state float obligations explicitly.
+                res["nan_checks_ignored"] = res.get("nan_checks_ignored", 0) + 1
+                res["n_success"] += 1
+                continue
             pm = re.match(r"^\"?(C\d\d):", desc)
             if pm and CURRENT_PROP[0] and pm.group(1) != CURRENT_PROP[0]:
                 # an obligation of another property sharing this harness: not this check's business
@@ -266,7 +272,7 @@ def parse_result(json_path, logfile, h):
         else:
             undetermined += 1
     for cb in d.get("cbmc", []):
-        s = cb.get("cbmc_stats", {})
+        s = cb.get("cbmc_stats") or {}
         res["solver_s"] += float(s.get("runtime_solver_s") or 0) + float(s.get("runtime_decision_procedure_s") or 0)
         res["symex_s"] += float(s.get("runtime_symex_s") or 0)
         res["vccs"] += int(s.get("vccs_generated") or 0)
@@ -275,7 +281,7 @@ def parse_result(json_path, logfile, h):
         res["status"] = "unwind"
     elif res["failed"]:
         res["status"] = "failed"
-    elif (st == "Success" or res.get("other_prop_failed")) and undetermined == 0:
+    elif (st == "Success" or res.get("other_prop_failed") or res.get("nan_checks_ignored")) and undetermined == 0:
         res["status"] = "vacuous" if res["covers"]["unsat"] else "ok"
     else:
         # kani says failure but no failed check parsed (e.g. unsupported construct reachable)
@@ -437,6 +443,8 @@ def replay_counterexample(h, res, unwindset):
              {"CARGO_TARGET_DIR": target_dir_for(h)})
     logtxt = open(logfile, errors="replace").read()
     tests = extract_playback_tests(logtxt)
+    seen = set()
+    tests = [t for t in tests if not (t[0] in seen or seen.add(t[0]))]
     out = {"tests": [t[0] for t in tests], "reproduced_dev": False, "reproduced_release": None,
            "path": None, "detail": ""}
     if not tests:
